@@ -1,5 +1,6 @@
 import KinModel.Drv.Util
 import KinModel.Body
+import KinModel.BodyReq
 open Lean
 namespace KinModel.Drv.C06
 open KinModel.Drv KinModel.Body
@@ -163,15 +164,25 @@ def decLabel (reg : List (Str × DecK)) (ct : Str) : String :=
 def handle (j : Json) : Json :=
   let rb : ReqBody := { required := getBool j "required", content := (getArr j "content").map parseMT }
   let ct := (getStr j "ct").toList
-  let b := parseBody (getD j "body" Json.null)
+  let b0 := parseBody (getD j "body" Json.null)
+  -- the request object: kind of `Body`, `ContentLength`, whether it came with `GetBody` (absent: a stream)
+  let sj := getD j "shape" Json.null
+  let shape : ReqShape :=
+    { body := (match getStr sj "body" with | "nil" => .nilBody | "nobody" => .noBody | _ => .stream),
+      contentLength := getInt sj "clen" }
+  -- model: the bytes the guard of the source lets the function read; spec: the body the request carries
+  let b := dataRead guardSrc shape b0
+  let bs := carried shape b0
   let exro := getBool j "exro"
   let ds := !(getBool j "skipDefaults")
-  let out := validateRequestBodyD registry rb ct b exro ds
+  let out := validateRequestR guardSrc registry rb ct shape b0 exro ds
+  let rep := getNat j "repeat"
+  let repeated := validateRepeated guardSrc registry rb ct (getBool sj "getBody") b0 exro rep shape
   let neutral := caseNeutral registry rb ct b exro ds
   let twoPhase := ds && !neutral && caseCompFree registry rb ct b
   -- the request-side reading where defaults are neutral; the two-phase reading (completed value) for
   -- composition-free schemas whose defaults decide; elsewhere no specification applies
-  let spec := if twoPhase then acceptDB registry rb ct b exro ds else acceptB registry rb ct b exro
+  let spec := if twoPhase then acceptDB registry rb ct bs exro ds else acceptB registry rb ct bs exro
   let excl :=
     (if exclFormUnparsable registry rb ct b then ["FormFieldUnparsable"] else [])
   let applies := neutral || twoPhase
@@ -182,7 +193,7 @@ def handle (j : Json) : Json :=
   let specDv : Option V :=
     if decoding then
       (match firstSome rb.content (candidates ct) with
-       | some mt => (match mt.schema with | some s => specDecode registry ct s mt.encs b | none => none)
+       | some mt => (match mt.schema with | some s => specDecode registry ct s mt.encs bs | none => none)
        | none => none)
     else none
   let branches :=
@@ -221,6 +232,13 @@ def handle (j : Json) : Json :=
      | none => []) ++
     (if !(b.text = []) && b.text.all (fun c => c == ' ' || c == '\n' || c == '\t' || c == '\r') then ["body.blank"] else []) ++
     (if !excl.isEmpty then ["excl"] else []) ++
+    (if isNull j "shape" then [] else
+      [match shape.body with | .stream => "req.stream" | .nilBody => "req.nilBody" | .noBody => "req.noBody"] ++
+      (if shape.body = .stream && shape.contentLength = 0 && !(b0.text = []) then ["req.lengthUnknown.zero"] else []) ++
+      (if shape.contentLength < 0 then ["req.lengthUnknown.negative"] else []) ++
+      (if shape.body = .stream && shape.contentLength > 0 && shape.contentLength != b0.text.length then ["req.lengthWrong"] else []) ++
+      (if shape.body != .stream && !(b0.text = []) then ["req.bytesNotCarried"] else []) ++
+      (if rep > 0 then ["req.repeated"] else [])) ++
     (if !formEncsWF registry rb ct b then ["form.encs.notWF"] else [])
   if out = .unmodelled then
     jobj [("error", Json.str "case outside the model (nested form decoder, default below `not`): generator must not produce it")]
@@ -230,6 +248,7 @@ def handle (j : Json) : Json :=
   jobj [
     ("model", jobj [("outcome", Json.str (outcomeStr out)), ("ok", Json.bool out.isOk),
                     ("decoding", Json.bool decoding),
+                    ("repeated", jstrs (repeated.map outcomeStr)),
                     ("decoded", match dv with | some (_, v) => jobj [("v", vJson v)] | none => Json.null)]),
     ("spec", jobj [("accept", Json.bool spec), ("applies", Json.bool applies),
                    ("decoded", match specDv with | some v => jobj [("v", vJson v)] | none => Json.null)]),
